@@ -1,6 +1,6 @@
 \* C17 document layer, closed (thorough): 3 header kinds x every history of <= 3 add_* calls over the
-\* four context paragraphs and at most one focus paragraph (1..3 patterns x copyright texts of <= 3 lines
-\* x license texts of <= 3 lines over E I ID P)
+\* four context paragraphs and at most one focus paragraph (copyright texts of <= 3 lines x license texts
+\* of <= 3 lines over E I ID P with 3 patterns; 1..3 patterns with the simplest texts)
 CONSTANTS
   Mode = "doc"
   Alphabet = {}
